@@ -87,11 +87,11 @@ def level_grid(typ, thorough, native=False):
     if typ == "null":
         return [(-1, 1, 2)]
     if typ == "lz4":
-        lv = list(range(0, 13))
+        lv = list(range(0, 13)) if thorough else [0, 1, 3, 6, 9, 10, 12]
     elif native:
         lv = [1, 2, 3, 5, 6, 9, 10, 19] if thorough else [1, 3, 19]
     else:
-        lv = list(range(1, 20)) if thorough else [1, 3, 6, 10, 15, 19]
+        lv = list(range(1, 20)) if thorough else [1, 3, 6, 10, 19]
     g = [(-1, lv[0], lv[-1])]
     for i, l in enumerate(lv):
         g.append((l, lv[(i + 1) % len(lv)], lv[(i + len(lv) // 2) % len(lv)]))
@@ -137,9 +137,9 @@ def replay_tasks(run, sets, builds, thorough):
     core2   depth-2 sequences Compress;Decompress / Compress;Close / SetLevel;Compress over the full shape space
             (9 data classes x 5 scratch shapes x decompress shapes x level switches): EVERY level of the grid
     rest2   all other depth-2 sequences over the full shape space: levels rotate per chunk of 100 and with the seed
-            (quick: one level per chunk, stateless types lz4/null every second chunk; thorough: four levels per chunk)
+            (quick: one level per chunk, lz4/null/pure-Go zstd every second chunk; thorough: four levels per chunk)
     deeper  (reduced shape space depth 3/4, simulated full shape space): one level per chunk, rotating; quick: every type
-            takes every second chunk; thorough: zstd/cgo every second chunk, zstd/native every sixth, stateless types every
+            takes every second chunk (pure-Go zstd every fourth); thorough: zstd/cgo every second chunk, zstd/native every sixth, stateless types every
             fourth; the tag builds only replay the simulated set
     """
     plan = {}
@@ -166,13 +166,14 @@ def replay_tasks(run, sets, builds, thorough):
                     elif mode == "rot":
                         k = (2 if native_zstd else 4) if thorough and bname in ("cgo", "nocgo") else 1
                         cfgs = [grid[(rot * k + j) % len(grid)] for j in range(min(k, len(grid)))]
-                        if not thorough and typ != "zstd" and (rot + ti) % 2:
-                            cfgs = []      # quick: the stateless types take every second chunk of the pair sequences
+                        if not thorough and (typ != "zstd" or native_zstd) and (rot + ti) % 2:
+                            cfgs = []      # quick: the stateless types and the (expensive to instantiate) pure-Go zstd
+                            #                take every second chunk of the pair sequences
                     else:
                         if thorough:
                             every = 2 if typ == "zstd" and not native_zstd else 6 if native_zstd else 4
                         else:
-                            every = 2
+                            every = 4 if native_zstd else 2
                         cfgs = [grid[(rot // every) % len(grid)]] if (rot + ti) % every == 0 else []
                         if bname not in ("cgo", "nocgo") and not sname.startswith("sim"):
                             cfgs = []      # the tag builds share the encoder code with cgo / nocgo: no deep enumeration
@@ -433,10 +434,11 @@ def main():
 
     run.cov["rule"] = ("F: every op sequence of depth 2 over 9 data classes x 5 scratch shapes x 2 decompress shapes x level changes x Close "
                        "on every type x build; Compress;Decompress / Compress;Close / SetLevel;Compress on every level of the grid "
-                       "(lz4 default,0..12; zstd cgo default,%s; zstd native default and the boundaries of its four level classes), the others on levels rotating per chunk of 100; every sequence of depth %d "
+                       "(lz4 default,%s; zstd cgo default,%s; zstd native default and the boundaries of its four level classes), the others on "
+                       "levels rotating per chunk of 100; every sequence of depth %d "
                        "over 3 data classes x 3 scratch shapes and simulated deeper ones over the full shape space with rotating "
                        "levels; distinct = distinct op sequences. B: seeded instances with lengths 0..512 KiB and arbitrary scratch "
-                       "len/cap" % ("1..19" if thorough else "1,3,6,10,15,19", 4 if thorough else 3))
+                       "len/cap" % ("0..12" if thorough else "0,1,3,6,9,10,12", "1..19" if thorough else "1,3,6,10,19", 4 if thorough else 3))
     run.assumptions += ["byte contents of a data class are seeded samples (random / repeated pattern / low entropy / port column / "
                         "bit-packed counters / address column / constant / mixed)",
                         "Decompress is given a source that behaves like *os.File (full reads, zero-length read returns 0,nil) and "
